@@ -565,6 +565,8 @@ func Leaves(full bool) []*Spec {
 	add(fixed("intp:7", func(k string) zapcore.Field { return zap.Intp(k, &seven) }, I64(7)))
 	// reflection
 	add(fixed("reflect:nil", func(k string) zapcore.Field { return zap.Reflect(k, nil) }, jsonx.NullNode()))
+	// a reflected plain string goes through the reflection encoder like any other value: JSON escaping, not Go quoting
+	add(fixed("reflect:plain-hostile-string", func(k string) zapcore.Field { return zap.Reflect(k, Hostile+"\a\v\x7f\U0010ffff") }, jsonx.S(FixUTF8(Hostile+"\a\v\x7f\U0010ffff"))))
 	add(fixed("reflect:map", func(k string) zapcore.Field { return zap.Reflect(k, map[string]int{"a": 1}) }, jsonx.O().Add("a", jsonx.N("1"))))
 	add(fixed("reflect:html-struct", func(k string) zapcore.Field { return zap.Reflect(k, htmlStruct{A: "<&> ", B: nil}) }, jsonx.O().Add("a<>&", jsonx.S("<&> ")).Add("b", jsonx.NullNode())))
 	add(fixed("reflect:rawmessage-with-newline", func(k string) zapcore.Field {
